@@ -35,6 +35,8 @@ def smap(f, *vals):
 class Adt:
     def __init__(self, name, variant, fields): self.name=name; self.variant=variant; self.fields=fields
     def __repr__(self): return '%s#%s%r'%(self.name,self.variant,self.fields)
+class Coro:
+    def __init__(self, upvars): self.variant=0; self.store={(None,i):v for i,v in enumerate(upvars)}
 class Ref:
     def __init__(self, cont, key): self.cont=cont; self.key=key
     def get(self): return self.cont[self.key]
@@ -107,6 +109,9 @@ class Machine:
             if re.match(WR,pl[3]) or (pl[1][0]=='field' and re.match(WR,pl[1][3])) or (pl[1][0]=='deref' and pl[1][1][0]=='local' and False):
                 return self.place_ref(fr,pl[1])
             base=self.place_ref(fr,pl[1]).get()
+            if isinstance(base,Coro):
+                key=(pl[1][2] if pl[1][0]=='downcast' else None, pl[2])
+                base.store.setdefault(key,None); return Ref(base.store,key)
             if isinstance(base,Adt): return Ref(base.fields,pl[2])
             if isinstance(base,(list,)): return Ref(base,pl[2])
             if isinstance(base,Ref) and re.search(r'Unique<|NonNull<|\*const |\*mut ',pl[3]): return Ref([base],0)   # Box internals
@@ -138,7 +143,7 @@ class Machine:
         if k=='array': return [self.operand(fr,o) for o in rv[1]]
         if k=='discriminant':
             v=self.place_ref(fr,rv[1]).get()
-            if isinstance(v,Adt): return v.variant
+            if isinstance(v,(Adt,Coro)): return v.variant
             raise Unsupported('discriminant of %r'%(v,))
         if k=='adt':
             path=rv[1]; args=[self.operand(fr,o) for o in rv[2]]
